@@ -351,3 +351,66 @@ func C17Xml() {
 		zz.Assert(size <= first, "retained tree does not grow with the number of records delivered")
 	}
 }
+
+// ---- C04: splitting the xpath into path and last filter ----
+
+// specSplitFilter: forward scan. Returns the index where the last top-level [...] group
+// starts if the string ends with such a group, else len(s); ok=false if s is not well-formed
+// (unterminated quote, unbalanced brackets).
+func zzSplitFilter(s []byte) (int, bool) {
+	depth := 0
+	start := -1    // start of the current top-level group
+	lastEnd := -1  // index just after the last completed top-level group
+	lastStart := 0 // its start
+	var quote byte
+	for i := 0; i < len(s); i++ {
+		c := s[i]
+		if quote != 0 {
+			if c == quote {
+				quote = 0
+			}
+			continue
+		}
+		switch c {
+		case '"', '\'':
+			quote = c
+		case '[':
+			if depth == 0 {
+				start = i
+			}
+			depth++
+		case ']':
+			depth--
+			if depth < 0 {
+				return 0, false
+			}
+			if depth == 0 {
+				lastStart, lastEnd = start, i+1
+			}
+		}
+	}
+	if quote != 0 || depth != 0 {
+		return 0, false
+	}
+	if lastEnd == len(s) && len(s) > 0 {
+		return lastStart, true
+	}
+	return len(s), true
+}
+
+// C04FilterSplit: for every well-formed string over {a / [ ] ' " =}, removeLastFilterInXPath
+// removes exactly the last top-level [...] group (quotes of either kind may contain the
+// other kind and brackets).
+func C04FilterSplit() {
+	L := zz.Param("L", 6)
+	s := zz.NondetBytes("s", L)
+	for _, c := range s {
+		zz.Assume(zz.ByteIn(c, "a[]'\"="))
+	}
+	cut, ok := zzSplitFilter(s)
+	zz.Assume(ok)
+	got := removeLastFilterInXPath(string(s))
+	zz.Observe("split", string(s), got)
+	zz.Assert(got == string(s[:cut]), "the removed suffix is exactly the last top-level [...] group")
+	zz.Cover("split")
+}
